@@ -17,6 +17,10 @@ Inductive case :=
 | CDim (ops : list (list dop)) (keys : list (list bytes))
        (reread : list (option (list bytes)))   (* VerifKeys of FromBytes(Bytes()) per dimension; None = error *)
        (orders : list (list nat * list bytes * list bytes))
+(* concurrency on one dimension: starting from the keys `init`, goroutines Insert the keys `ins` (none in init)
+   while others Delete the keys `dels` (all in init, none in ins); `finals` = the distinct VerifKeys seen at the end
+   of the rounds.  Every serialisation of these calls gives the same set. *)
+| CConc (init ins dels : list bytes) (finals : list (list bytes))
 (* storage level: a history through the real Storage, then Get for selectors, GetKeys, GetValues per key,
    and the dump of some dimensions (by cache key "k:v") *)
 | CStore (ops : list sop)
@@ -155,6 +159,13 @@ Definition check_case (c : case) : verdict :=
             "a dimension written with Bytes() and read back with FromBytes() is not the same set of keys";
           corr (list_eqb bl_eqb mdims keys) "d_insert/d_delete model differs from Dimension.Insert/Delete" ]
         ++ flat_map (check_order sets mdims) orders)
+  | CConc init ins dels finals =>
+      let expected := run_dops (map DIns init ++ map DIns ins ++ map DDel dels)%list in
+      let pre := forallb (fun k => negb (memb k init) && negb (memb k dels)) ins && forallb (fun k => memb k init) dels in
+      combine_verdicts
+        [ corr pre "harness: concurrent stream outside its precondition";
+          spec (negb (is_nil finals) && forallb (fun f => bl_eqb f expected) finals)
+            "after concurrent Insert/Delete a dimension is not the sorted duplicate-free set inserted minus deleted" ]
   | CStore sops gets keys values dims hkeys hvalues hide =>
       let ops := to_iops sops in
       let st := ix_run ops in
